@@ -76,6 +76,12 @@ def random_vec_bytes(rng, q, dim):
 MUT = (10, 11, 20, 21, 22, 30, 40, 41, 50)
 
 
+def has_state(o):
+    """a STATE op follows every mutating op, except a write attempted through a read-only collection (it faults; what
+    the handle keeps in memory afterwards is not compared)"""
+    return o['op'] in MUT and not o.get('ro')
+
+
 def op_toks(o):
     c = o['op']
     if c == 40:
@@ -113,7 +119,7 @@ def render(ops, with_state=True):
     t = [1]
     for o in ops:
         t += op_toks(o)
-        if with_state and o['op'] in MUT:
+        if with_state and has_state(o):
             t += [31]
     return ' '.join(map(str, t)) + '\n'
 
@@ -237,6 +243,15 @@ def gen_coll_history(rng, path, nops, big=False, reopen=0.05, ids=None, q=None, 
             if r < 0.3:
                 ops.append(reopen_op(rng.choice([0, 1])))
                 ro = False
+            elif r < 0.45:
+                # a write attempted through the read-only collection: refused, nothing changes (also after the next reopen)
+                k = rng.choice([20, 21, 22])
+                o = {'op': k, 'id': id_, 'ro': True}
+                if k == 20:
+                    o.update({'vec': P(data=random_vec_bytes(rng, q, dim)), 'meta': P(seed=rng.randrange(10**6), n=rng.choice([0, 5, 40, 6000]))})
+                elif k == 21:
+                    o.update({'meta': P(seed=rng.randrange(10**6), n=cur_len.get(id_, 7) if rng.random() < 0.5 else rng.choice([3, 50]))})
+                ops.append(o)
             elif r < 0.6:
                 ops.append({'op': 23, 'id': id_})
             elif r < 0.75:
@@ -411,7 +426,7 @@ def line_owner(ops):
     own = []
     for i, o in enumerate(ops):
         own.append(i)
-        if o['op'] in MUT:
+        if has_state(o):
             own.append(i)
     return own
 
@@ -428,9 +443,16 @@ def spec_check(ops, g):
             return {'op_index': i, 'kind': 'died', 'what': 'implementation produced no output for this operation (process died?)'}
         f = list(map(int, g[k].split()))
         c = o['op']
-        k += 2 if c in MUT else 1
+        k += 2 if has_state(o) else 1
         if f[0] != c:
             return {'op_index': i, 'kind': 'died', 'what': 'output desynchronised', 'line': g[k - 1]}
+        if o.get('ro') and c in (20, 21, 22):
+            # a write through a collection opened read-only is refused (the mapping faults) and changes nothing
+            would = c == 20 or o['id'] in spec
+            if o['id'] not in ignore and f[1] != (2 if would else 1):
+                return {'op_index': i, 'kind': {20: 'add', 21: 'update', 22: 'remove'}[c],
+                        'what': 'a write through a collection opened read-only was answered %s (it must be refused and change nothing)' % f[1:], 'got': f}
+            continue
         if c not in (24, 25, 31, 32) and len(f) == 2 and f[1] == 2:
             return {'op_index': i, 'kind': 'panic', 'what': 'operation panicked', 'line': ' '.join(map(str, f))}
         if c in (20, 21, 22, 23) and o['id'] in ignore:
